@@ -148,6 +148,11 @@ func c07run(enc *json.Encoder, id int, sc c07scen, rng *rand.Rand) {
 		case "R":
 			g.release(op.N)
 			c07settle(aw, g)
+		case "K":
+			// let the periodic flush fire while the disk is stalled: the loop ends up blocked inside the
+			// underlying writer (spill or bufio.Flush); what is written next is accepted during that stall
+			time.Sleep(3 * time.Millisecond)
+			c07settle(aw, g)
 		case "T":
 			g.setOpen(true)
 			time.Sleep(7 * time.Millisecond)
@@ -206,7 +211,11 @@ func TestVerifC07(t *testing.T) {
 			case x < 9:
 				sc.Ops = append(sc.Ops, c07op{"F", 0})
 			default:
-				sc.Ops = append(sc.Ops, c07op{"T", 0})
+				if rng.Intn(2) == 0 {
+					sc.Ops = append(sc.Ops, c07op{"K", 0})
+				} else {
+					sc.Ops = append(sc.Ops, c07op{"T", 0})
+				}
 			}
 		}
 		scens = append(scens, sc)
